@@ -1,1 +1,825 @@
-(* placeholder: proofs are delivered into this file *)
+(* Proofs for C07: the model of kernel/hash (HashModel.v) computes the standard digests of
+   HashSpec.v (FIPS 180-4 SHA-1 / SHA-256, RFC 1321 MD5) for every message, through both the
+   in-memory entry point and the file entry point (filebuffer64, every refill size >= 1).
+   No axioms; constants of Gen/HashConst.v are compared with the standards' by computation. *)
+From Coq Require Import NArith List Bool Arith Lia Btauto PeanoNat.
+From Wencry Require Import Bytes HashSpec HashModel.
+From Wencry.Gen Require Import HashConst.
+Import ListNotations.
+Local Open Scope N_scope.
+
+Local Ltac nat_dm :=
+  repeat match goal with
+         | |- context [(?a / 64)%nat] =>
+             let q := fresh "q" in let r := fresh "r" in let E := fresh "E" in
+             pose proof (Nat.div_mod a 64 ltac:(discriminate)) as E;
+             pose proof (Nat.mod_upper_bound a 64 ltac:(discriminate));
+             set (q := (a / 64)%nat) in *; set (r := (a mod 64)%nat) in *; clearbody q r
+         | H : context [(?a / 64)%nat] |- _ =>
+             let q := fresh "q" in let r := fresh "r" in let E := fresh "E" in
+             pose proof (Nat.div_mod a 64 ltac:(discriminate)) as E;
+             pose proof (Nat.mod_upper_bound a 64 ltac:(discriminate));
+             set (q := (a / 64)%nat) in *; set (r := (a mod 64)%nat) in *; clearbody q r
+         | |- context [(?a mod 64)%nat] =>
+             let q := fresh "q" in let r := fresh "r" in let E := fresh "E" in
+             pose proof (Nat.div_mod a 64 ltac:(discriminate)) as E;
+             pose proof (Nat.mod_upper_bound a 64 ltac:(discriminate));
+             set (q := (a / 64)%nat) in *; set (r := (a mod 64)%nat) in *; clearbody q r
+         | H : context [(?a mod 64)%nat] |- _ =>
+             let q := fresh "q" in let r := fresh "r" in let E := fresh "E" in
+             pose proof (Nat.div_mod a 64 ltac:(discriminate)) as E;
+             pose proof (Nat.mod_upper_bound a 64 ltac:(discriminate));
+             set (q := (a / 64)%nat) in *; set (r := (a mod 64)%nat) in *; clearbody q r
+         end; lia.
+
+(* ------------------------------------------------------------------------------------ *)
+(** * 1. Generic list facts                                                              *)
+(* ------------------------------------------------------------------------------------ *)
+
+Lemma fold_left_ext {A B} (f g : A -> B -> A) (l : list B) :
+  (forall a b, f a b = g a b) -> forall a, fold_left f l a = fold_left g l a.
+Proof.
+  intro Hfg. induction l as [|x l IH]; intro a; cbn [fold_left]; [reflexivity|].
+  rewrite Hfg. apply IH.
+Qed.
+
+Lemma fold_left_inv {A B} (P : A -> Prop) (f : A -> B -> A) (l : list B) :
+  (forall a b, P a -> P (f a b)) -> forall a, P a -> P (fold_left f l a).
+Proof.
+  intro Hf. induction l as [|x l IH]; intros a Ha; cbn [fold_left]; [exact Ha|].
+  apply IH, Hf, Ha.
+Qed.
+
+Lemma firstn_app_exact {A} (x y : list A) (k : nat) : length x = k -> firstn k (x ++ y) = x.
+Proof.
+  intro Hk. rewrite firstn_app, Hk, Nat.sub_diag. cbn [firstn].
+  rewrite app_nil_r. apply firstn_all2. lia.
+Qed.
+
+Lemma skipn_app_exact {A} (x y : list A) (k : nat) : length x = k -> skipn k (x ++ y) = y.
+Proof.
+  intro Hk. rewrite skipn_app, Hk, Nat.sub_diag. cbn [skipn].
+  rewrite skipn_all2 by lia. reflexivity.
+Qed.
+
+Lemma firstn_app_ge {A} (x y : list A) (k : nat) : (k <= length x)%nat -> firstn k (x ++ y) = firstn k x.
+Proof.
+  intro Hk. rewrite firstn_app. replace (k - length x)%nat with 0%nat by lia.
+  cbn [firstn]. apply app_nil_r.
+Qed.
+
+Lemma skipn_app_ge {A} (x y : list A) (k : nat) : (k <= length x)%nat -> skipn k (x ++ y) = skipn k x ++ y.
+Proof.
+  intro Hk. rewrite skipn_app. replace (k - length x)%nat with 0%nat by lia. reflexivity.
+Qed.
+
+Lemma skipn_add {A} (a b : nat) (l : list A) : skipn (a + b) l = skipn a (skipn b l).
+Proof.
+  revert l. induction b as [|b IH]; intro l.
+  - rewrite Nat.add_0_r. reflexivity.
+  - rewrite Nat.add_succ_r. destruct l as [|x l].
+    + rewrite !skipn_nil. reflexivity.
+    + cbn [skipn]. apply IH.
+Qed.
+
+(** chunks *)
+Lemma chunks_fuel_enough {A} (n : nat) : (1 <= n)%nat -> forall f1 f2 (l : list A),
+  (length l <= f1)%nat -> (length l <= f2)%nat -> chunks_fuel f1 n l = chunks_fuel f2 n l.
+Proof.
+  intro Hn. induction f1 as [|f1 IH]; intros f2 l H1 H2.
+  - destruct l; [|cbn [length] in H1; lia]. destruct f2; reflexivity.
+  - destruct l as [|x l]; [destruct f2; reflexivity|].
+    destruct f2 as [|f2]; [cbn [length] in H2; lia|].
+    cbn [chunks_fuel]. f_equal. apply IH; rewrite skipn_length; cbn [length] in *; lia.
+Qed.
+
+Lemma chunks_nil {A} (n : nat) : chunks n (@nil A) = [].
+Proof. reflexivity. Qed.
+
+Lemma chunks_fuel_S {A} (f n : nat) (l : list A) :
+  l <> [] -> chunks_fuel (S f) n l = firstn n l :: chunks_fuel f n (skipn n l).
+Proof. destruct l; [congruence|reflexivity]. Qed.
+
+Lemma chunks_app_exact {A} (n : nat) (x r : list A) :
+  (1 <= n)%nat -> length x = n -> chunks n (x ++ r) = x :: chunks n r.
+Proof.
+  intros Hn Hx. unfold chunks. rewrite app_length.
+  assert (Hne : x ++ r <> []) by (destruct x; [cbn [length] in Hx; lia|discriminate]).
+  replace (length x + length r)%nat with (S (length x - 1 + length r)) by lia.
+  rewrite chunks_fuel_S by exact Hne.
+  rewrite firstn_app_exact by exact Hx. rewrite skipn_app_exact by exact Hx.
+  f_equal. apply chunks_fuel_enough; lia.
+Qed.
+
+Lemma chunks_single {A} (n : nat) (x : list A) : (1 <= n)%nat -> length x = n -> chunks n x = [x].
+Proof.
+  intros Hn Hx. rewrite <- (app_nil_r x) at 1. rewrite chunks_app_exact by assumption. reflexivity.
+Qed.
+
+(* ------------------------------------------------------------------------------------ *)
+(** * 2. 32-bit arithmetic and bitwise facts                                             *)
+(* ------------------------------------------------------------------------------------ *)
+
+Lemma w32_nz : w32 <> 0.
+Proof. discriminate. Qed.
+
+Lemma add32_mod_l a b : add32 (a mod w32) b = add32 a b.
+Proof. unfold add32. apply N.add_mod_idemp_l, w32_nz. Qed.
+
+Lemma add32_mod_r a b : add32 a (b mod w32) = add32 a b.
+Proof. unfold add32. apply N.add_mod_idemp_r, w32_nz. Qed.
+
+Lemma add32_0_l a b : add32 (add32 0 a) b = add32 a b.
+Proof. unfold add32 at 2. rewrite N.add_0_l. apply add32_mod_l. Qed.
+
+Lemma add32_congr_l x y k : x mod w32 = y mod w32 -> add32 x k = add32 y k.
+Proof. intro E. rewrite <- (add32_mod_l x), <- (add32_mod_l y), E. reflexivity. Qed.
+
+(* the SHA-1 additions: temp = lrot(a,5) + (f + K) + e + w   vs   T = ROTL5(a) + f + e + K + W *)
+Lemma add32_shuffle r F K e w :
+  add32 (add32 (add32 r (add32 F K)) e) w = add32 (add32 (add32 (add32 r F) e) K) w.
+Proof.
+  unfold add32.
+  rewrite (N.add_mod_idemp_r r (F + K) _ w32_nz).
+  rewrite (N.add_mod_idemp_l (r + (F + K)) e _ w32_nz).
+  rewrite (N.add_mod_idemp_l (r + (F + K) + e) w _ w32_nz).
+  rewrite (N.add_mod_idemp_l (r + F) e _ w32_nz).
+  rewrite (N.add_mod_idemp_l (r + F + e) K _ w32_nz).
+  rewrite (N.add_mod_idemp_l (r + F + e + K) w _ w32_nz).
+  f_equal. lia.
+Qed.
+
+Lemma sum32_4 a b c d : sum32 [a; b; c; d] = add32 (add32 (add32 a b) c) d.
+Proof. unfold sum32. cbn [fold_left]. rewrite add32_0_l. reflexivity. Qed.
+
+Lemma sum32_5 a b c d e : sum32 [a; b; c; d; e] = add32 (add32 (add32 (add32 a b) c) d) e.
+Proof. unfold sum32. cbn [fold_left]. rewrite add32_0_l. reflexivity. Qed.
+
+(* sha1.cpp writes Ch and Maj with OR; FIPS 180-4 with XOR.  Ch: the operands are disjoint on the
+   low 32 bits (above bit 31 [not32] is the identity, so the claim is modulo 2^32, which is all the
+   following addition sees); Maj: equal on every bit. *)
+Lemma HASH_A_mod x y z : HASH_A x y z mod w32 = Ch x y z mod w32.
+Proof.
+  apply N.bits_inj; intro n. change w32 with (2 ^ 32).
+  destruct (N.ltb_spec n 32) as [Hn|Hn].
+  - rewrite !N.mod_pow2_bits_low by exact Hn.
+    unfold HASH_A, Ch, not32.
+    rewrite N.lor_spec, N.lxor_spec, !N.land_spec, N.lxor_spec.
+    change 4294967295 with (N.ones 32). rewrite N.ones_spec_low by exact Hn.
+    btauto.
+  - rewrite !N.mod_pow2_bits_high by exact Hn. reflexivity.
+Qed.
+
+Lemma HASH_C_eq x y z : HASH_C x y z = Maj x y z.
+Proof.
+  apply N.bits_inj; intro n. unfold HASH_C, Maj.
+  rewrite !N.lor_spec, !N.lxor_spec, !N.land_spec. btauto.
+Qed.
+
+Lemma HASH_B_eq x y z : HASH_B x y z = Parity x y z.
+Proof. unfold HASH_B, Parity. apply N.lxor_assoc. Qed.
+
+Lemma MAJORITY_eq x y z : MAJORITY x y z = Maj x y z.
+Proof. unfold MAJORITY, Maj. apply N.lxor_assoc. Qed.
+
+Lemma CHOOSE_eq x y z : CHOOSE x y z = Ch x y z.
+Proof. reflexivity. Qed.
+
+Lemma N_ltb_of_nat t k : (N.of_nat t <? N.of_nat k) = (t <? k)%nat.
+Proof.
+  destruct (N.ltb_spec (N.of_nat t) (N.of_nat k)), (Nat.ltb_spec t k); try reflexivity; lia.
+Qed.
+
+(* ------------------------------------------------------------------------------------ *)
+(** * 3. The generated constants are the standards' (by computation)                     *)
+(* ------------------------------------------------------------------------------------ *)
+
+Lemma sha256_k_eq : sha256_k = sha256_K.          Proof. vm_compute. reflexivity. Qed.
+Lemma sha256_iv_eq : sha256_iv = sha256_H0.       Proof. vm_compute. reflexivity. Qed.
+Lemma sha1_iv_eq : sha1_iv = sha1_H0.             Proof. vm_compute. reflexivity. Qed.
+Lemma md5_iv_eq : md5_iv = md5_H0.                Proof. vm_compute. reflexivity. Qed.
+Lemma md5_steps_eq : md5_steps = md5_rfc_steps.   Proof. vm_compute. reflexivity. Qed.
+Lemma sha1_k_eq : sha1_k = [0x5a827999; 0x6ed9eba1; 0x8f1bbcdc; 0xca62c1d6].
+Proof. vm_compute. reflexivity. Qed.
+Lemma sha1_bounds_eq : sha1_bounds = [20; 40; 60]. Proof. vm_compute. reflexivity. Qed.
+Lemma sha1_rots_eq : sha1_rots = [5; 30; 1].       Proof. vm_compute. reflexivity. Qed.
+Lemma finals_eq : sha1_final = [56; 56; 0] /\ md5_final = [56; 56; 1] /\ sha256_final = [56; 56; 0].
+Proof. vm_compute. repeat split. Qed.
+Lemma C07_counter_is_64_bit_proof : totalsize_bits = 64.
+Proof. vm_compute. reflexivity. Qed.
+
+Lemma rs3_rot a b c x :
+  rs3 [a; b; c; 0] x = N.lxor (rotr32 x a) (N.lxor (rotr32 x b) (rotr32 x c)).
+Proof. unfold rs3. cbn [nth]. change (0 =? 0) with true. cbv iota. apply N.lxor_assoc. Qed.
+Lemma rs3_shr a b c x :
+  rs3 [a; b; c; 1] x = N.lxor (rotr32 x a) (N.lxor (rotr32 x b) (N.shiftr x c)).
+Proof. unfold rs3. cbn [nth]. change (1 =? 0) with false. cbv iota. apply N.lxor_assoc. Qed.
+
+Lemma rs3_SIGMA0 x : rs3 sha256_SIGMA0 x = Sigma0 x.
+Proof. change sha256_SIGMA0 with [2; 13; 22; 0]. apply rs3_rot. Qed.
+Lemma rs3_SIGMA1 x : rs3 sha256_SIGMA1 x = Sigma1 x.
+Proof. change sha256_SIGMA1 with [6; 11; 25; 0]. apply rs3_rot. Qed.
+Lemma rs3_GAMMA0 x : rs3 sha256_GAMMA0 x = sigma0 x.
+Proof. change sha256_GAMMA0 with [7; 18; 3; 1]. apply rs3_shr. Qed.
+Lemma rs3_GAMMA1 x : rs3 sha256_GAMMA1 x = sigma1 x.
+Proof. change sha256_GAMMA1 with [17; 19; 10; 1]. apply rs3_shr. Qed.
+
+(* ------------------------------------------------------------------------------------ *)
+(** * 4. The compression functions agree                                                 *)
+(* ------------------------------------------------------------------------------------ *)
+
+(** SHA-256 *)
+Lemma sha256_sched_eq n : forall w, m_sha256_sched n w = sha256_sched n w.
+Proof.
+  induction n as [|n IH]; intro w; [reflexivity|].
+  cbn [m_sha256_sched sha256_sched].
+  rewrite sum32_4, rs3_GAMMA0, rs3_GAMMA1. apply IH.
+Qed.
+
+Lemma sha256_round_eq W v i : m_sha256_round W v i = sha256_round W v i.
+Proof.
+  destruct v as [|a [|b [|c [|d [|e [|f [|g [|h [|x v]]]]]]]]];
+    [reflexivity|reflexivity|reflexivity|reflexivity|reflexivity|reflexivity|reflexivity|reflexivity| |reflexivity].
+  unfold m_sha256_round, sha256_round. cbv zeta.
+  rewrite sum32_5, rs3_SIGMA0, rs3_SIGMA1, MAJORITY_eq, sha256_k_eq. reflexivity.
+Qed.
+
+Lemma sha256_block_eq H blk : m_sha256_block H blk = sha256_block H blk.
+Proof.
+  unfold m_sha256_block, sha256_block, m_sha256_W, sha256_W. cbv zeta.
+  rewrite sha256_sched_eq. f_equal. apply fold_left_ext. intros; apply sha256_round_eq.
+Qed.
+
+(** SHA-1 *)
+Lemma sha1_sched_eq n : forall w, m_sha1_sched n w = sha1_sched n w.
+Proof.
+  induction n as [|n IH]; intro w; [reflexivity|].
+  cbn [m_sha1_sched sha1_sched]. rewrite sha1_rots_eq. cbn [nth].
+  rewrite <- !N.lxor_assoc. apply IH.
+Qed.
+
+Lemma sha1_round_eq W v t : m_sha1_round W v t = sha1_round W v t.
+Proof.
+  destruct v as [|a [|b [|c [|d [|e [|x v]]]]]];
+    [reflexivity|reflexivity|reflexivity|reflexivity|reflexivity| |reflexivity].
+  unfold m_sha1_round, sha1_round. cbv zeta.
+  rewrite sha1_rots_eq, sha1_bounds_eq, sha1_k_eq. cbn [nth].
+  rewrite sum32_5. f_equal.
+  change 20 with (N.of_nat 20). change 40 with (N.of_nat 40). change 60 with (N.of_nat 60).
+  rewrite !N_ltb_of_nat. unfold sha1_f, sha1_K.
+  destruct (t <? 20)%nat; [|destruct (t <? 40)%nat; [|destruct (t <? 60)%nat]].
+  - rewrite (add32_congr_l _ _ _ (HASH_A_mod b c d)). apply add32_shuffle.
+  - rewrite HASH_B_eq. apply add32_shuffle.
+  - rewrite HASH_C_eq. apply add32_shuffle.
+  - rewrite HASH_B_eq. apply add32_shuffle.
+Qed.
+
+Lemma sha1_block_eq H blk : m_sha1_block H blk = sha1_block H blk.
+Proof.
+  unfold m_sha1_block, sha1_block, m_sha1_W, sha1_W. cbv zeta.
+  rewrite sha1_sched_eq. f_equal. apply fold_left_ext. intros; apply sha1_round_eq.
+Qed.
+
+(** MD5: the interpreter is shared; the 64 step descriptions extracted from md5.cpp are RFC 1321's *)
+Lemma md5_block_eq H blk : m_md5_block H blk = md5_block H blk.
+Proof. unfold m_md5_block, md5_block. rewrite md5_steps_eq. reflexivity. Qed.
+
+(* ------------------------------------------------------------------------------------ *)
+(** * 5. Hashmaster::getStringHash = pad, parse into blocks, fold the compression function *)
+(* ------------------------------------------------------------------------------------ *)
+
+(* the length encoding selected by the third entry of ha_final *)
+Definition lenb (a : halg) (x : N) : list N :=
+  if nth 2 (ha_final a) 0 =? 0 then be64_bytes x else le64_bytes x.
+Definition wf_final (a : halg) : Prop :=
+  nth 0 (ha_final a) 0 = 56 /\ nth 1 (ha_final a) 0 = 56.
+
+Lemma lenb_length a x : length (lenb a x) = 8%nat.
+Proof. unfold lenb. destruct (_ =? _); reflexivity. Qed.
+
+(* what the standard appends to a message of L bytes *)
+Definition tail_of (a : halg) (L : nat) : list N :=
+  [128] ++ zeros (pad_zeros L) ++ lenb a (8 * N.of_nat L).
+Definition spec_tail (a : halg) (n : nat) (s : list N) : list N := s ++ tail_of a (n + length s).
+
+Lemma pad_with_spec_tail a s : pad_with (lenb a) s = spec_tail a 0 s.
+Proof. reflexivity. Qed.
+
+Lemma pow64 : 2 ^ 64 = 18446744073709551616.
+Proof. reflexivity. Qed.
+
+Lemma addtotal_h st len : hs_h (addtotal st len) = hs_h st.
+Proof. reflexivity. Qed.
+
+Lemma addtotal_total st len :
+  len <= 64 -> hs_total st + 8 * len < 2 ^ 64 ->
+  hs_total (addtotal st len) = hs_total st + 8 * len.
+Proof.
+  intros Hl Hs. rewrite pow64 in Hs. unfold addtotal. cbn [hs_total].
+  rewrite (N.mod_small (len * 8) w32) by (unfold w32; lia).
+  change (2 ^ totalsize_bits) with 18446744073709551616.
+  rewrite N.mod_small by lia. lia.
+Qed.
+
+Lemma getHash_block_h a st blk : hs_h (getHash_block a st blk) = ha_compress a (hs_h st) blk.
+Proof. reflexivity. Qed.
+
+Lemma getHash_block_total a st blk :
+  hs_total st + 512 < 2 ^ 64 -> hs_total (getHash_block a st blk) = hs_total st + 512.
+Proof.
+  intro Hs. unfold getHash_block. rewrite addtotal_total; cbn [hs_total]; lia.
+Qed.
+
+Lemma zeros_app n m : zeros (n + m) = zeros n ++ zeros m.
+Proof. apply repeat_app. Qed.
+Lemma zeros_length n : length (zeros n) = n.
+Proof. apply repeat_length. Qed.
+
+Lemma pad_zeros_lt56 n fl : (n mod 64 = 0)%nat -> (fl < 56)%nat -> pad_zeros (n + fl) = (55 - fl)%nat.
+Proof.
+  intros Hn Hf. unfold pad_zeros.
+  assert (E : ((n + fl) mod 64 = fl)%nat).
+  { rewrite <- Nat.add_mod_idemp_l, Hn by discriminate. cbn [Nat.add]. apply Nat.mod_small. lia. }
+  rewrite E. replace (119 - fl)%nat with (55 - fl + 1 * 64)%nat by lia.
+  rewrite Nat.mod_add by discriminate. apply Nat.mod_small. lia.
+Qed.
+
+Lemma pad_zeros_ge56 n fl :
+  (n mod 64 = 0)%nat -> (56 <= fl < 64)%nat -> pad_zeros (n + fl) = (119 - fl)%nat.
+Proof.
+  intros Hn Hf. unfold pad_zeros.
+  assert (E : ((n + fl) mod 64 = fl)%nat).
+  { rewrite <- Nat.add_mod_idemp_l, Hn by discriminate. cbn [Nat.add]. apply Nat.mod_small. lia. }
+  rewrite E. apply Nat.mod_small. lia.
+Qed.
+
+(* the final-block routine *)
+Lemma getHash_final_h a st s n :
+  wf_final a -> (length s < 64)%nat ->
+  hs_total st = 8 * N.of_nat n -> (n mod 64 = 0)%nat ->
+  8 * N.of_nat (n + length s) < 2 ^ 64 ->
+  hs_h (getHash_final a st s) =
+  fold_left (ha_compress a) (chunks 64 (spec_tail a n s)) (hs_h st).
+Proof.
+  intros [Hthr Hpos] Hlen Htot Hn Hsz.
+  unfold getHash_final. cbv zeta. rewrite Hthr, Hpos.
+  change (N.to_nat 56) with 56%nat.
+  set (fl := length s) in *.
+  set (st1 := addtotal st (N.of_nat fl)).
+  assert (Ht1 : hs_total st1 = 8 * N.of_nat (n + fl)).
+  { unfold st1. rewrite addtotal_total; lia. }
+  assert (Hh1 : hs_h st1 = hs_h st) by reflexivity.
+  fold (lenb a (hs_total st1)). rewrite Ht1.
+  unfold spec_tail, tail_of. fold fl.
+  destruct (Nat.leb_spec 56 fl) as [Hge|Hlt].
+  - (* two blocks *)
+    rewrite getHash_block_h, getHash_block_h, Hh1.
+    rewrite pad_zeros_ge56 by (try assumption; lia).
+    replace (119 - fl)%nat with ((63 - fl) + 56)%nat by lia.
+    rewrite zeros_app.
+    change (firstn 56 (zeros 64)) with (zeros 56).
+    set (L := lenb a _).
+    replace (s ++ [128] ++ (zeros (63 - fl) ++ zeros 56) ++ L)
+      with ((s ++ [128] ++ zeros (63 - fl)) ++ ((zeros 56 ++ L) ++ []))
+      by (rewrite app_nil_r, <- !app_assoc; reflexivity).
+    assert (Hl1 : length (s ++ [128] ++ zeros (63 - fl)) = 64%nat).
+    { rewrite !app_length, zeros_length. cbn [length]. fold fl. lia. }
+    assert (Hl2 : length (zeros 56 ++ L) = 64%nat).
+    { rewrite app_length, zeros_length. unfold L. rewrite lenb_length. reflexivity. }
+    rewrite chunks_app_exact by (try exact Hl1; lia).
+    rewrite chunks_app_exact by (try exact Hl2; lia).
+    reflexivity.
+  - (* one block *)
+    rewrite getHash_block_h, Hh1.
+    rewrite pad_zeros_lt56 by assumption.
+    set (L := lenb a _).
+    replace (63 - fl)%nat with ((55 - fl) + 8)%nat by lia.
+    rewrite zeros_app.
+    assert (Hl1 : length (s ++ [128] ++ zeros (55 - fl)) = 56%nat).
+    { rewrite !app_length, zeros_length. cbn [length]. fold fl. lia. }
+    replace (s ++ [128] ++ zeros (55 - fl) ++ zeros 8)
+      with ((s ++ [128] ++ zeros (55 - fl)) ++ zeros 8)
+      by (rewrite <- !app_assoc; reflexivity).
+    rewrite firstn_app_exact by exact Hl1.
+    replace (s ++ [128] ++ zeros (55 - fl) ++ L) with ((s ++ [128] ++ zeros (55 - fl)) ++ L)
+      by (rewrite <- !app_assoc; reflexivity).
+    rewrite chunks_single; [reflexivity|lia|].
+    rewrite app_length, Hl1. unfold L. rewrite lenb_length. reflexivity.
+Qed.
+
+Lemma string_loop_spec a : wf_final a -> forall fuel st s n,
+  (length s / 64 < fuel)%nat ->
+  hs_total st = 8 * N.of_nat n -> (n mod 64 = 0)%nat ->
+  8 * N.of_nat (n + length s) < 2 ^ 64 ->
+  hs_h (string_loop a fuel st s) =
+  fold_left (ha_compress a) (chunks 64 (spec_tail a n s)) (hs_h st).
+Proof.
+  intro Hwf. induction fuel as [|f IH]; intros st s n Hfuel Htot Hn Hsz; [lia|].
+  cbn [string_loop]. destruct (Nat.leb_spec 64 (length s)) as [Hge|Hlt].
+  - assert (Hsk : length (skipn 64 s) = (length s - 64)%nat) by apply skipn_length.
+    assert (Hfi : length (firstn 64 s) = 64%nat) by (apply firstn_length_le; exact Hge).
+    rewrite (IH _ _ (n + 64)%nat).
+    + rewrite getHash_block_h. unfold spec_tail.
+      replace (n + 64 + length (skipn 64 s))%nat with (n + length s)%nat by lia.
+      set (T := tail_of a _).
+      assert (E : s ++ T = firstn 64 s ++ (skipn 64 s ++ T))
+        by (rewrite app_assoc, firstn_skipn; reflexivity).
+      rewrite E, (chunks_app_exact 64 (firstn 64 s)) by (try exact Hfi; lia). reflexivity.
+    + rewrite Hsk.
+      assert (E : (length s = 64 + (length s - 64))%nat) by lia.
+      rewrite E in Hfuel.
+      replace (64 + (length s - 64))%nat with ((length s - 64) + 1 * 64)%nat in Hfuel by lia.
+      rewrite Nat.div_add in Hfuel by discriminate. lia.
+    + rewrite getHash_block_total; rewrite Htot; rewrite ?pow64 in *; lia.
+    + replace (n + 64)%nat with (n + 1 * 64)%nat by lia.
+      rewrite Nat.mod_add by discriminate. exact Hn.
+    + rewrite Hsk. replace (n + 64 + (length s - 64))%nat with (n + length s)%nat by lia. exact Hsz.
+  - apply getHash_final_h; assumption.
+Qed.
+
+Lemma getStringHash_spec a s : wf_final a -> 8 * N.of_nat (length s) < 2 ^ 64 ->
+  getStringHash a s =
+  ha_out a (fold_left (ha_compress a) (chunks 64 (pad_with (lenb a) s)) (ha_init a)).
+Proof.
+  intros Hwf Hsz. unfold getStringHash. f_equal.
+  rewrite pad_with_spec_tail.
+  apply (string_loop_spec a Hwf _ (reset a) s 0%nat); [lia|reflexivity|reflexivity|exact Hsz].
+Qed.
+
+(** the three algorithms *)
+Lemma wf_sha1 : wf_final alg_sha1.   Proof. split; reflexivity. Qed.
+Lemma wf_md5 : wf_final alg_md5.     Proof. split; reflexivity. Qed.
+Lemma wf_sha256 : wf_final alg_sha256. Proof. split; reflexivity. Qed.
+
+Lemma get_hasher_cases alg a : get_hasher alg = Some a ->
+  (alg = 0 /\ a = alg_sha1) \/ (alg = 1 /\ a = alg_md5) \/ (alg = 2 /\ a = alg_sha256).
+Proof.
+  intro H.
+  destruct alg as [|[p|[p|p|]|]]; cbn in H; try discriminate H; injection H as <-; auto.
+Qed.
+
+Lemma get_hasher_wf alg a : get_hasher alg = Some a -> wf_final a.
+Proof.
+  intro H. destruct (get_hasher_cases _ _ H) as [[_ ->]|[[_ ->]|[_ ->]]];
+    [apply wf_sha1|apply wf_md5|apply wf_sha256].
+Qed.
+
+(* the model's fold = the standard's digest *)
+Lemma fold_std alg a m : get_hasher alg = Some a ->
+  ha_out a (fold_left (ha_compress a) (chunks 64 (pad_with (lenb a) m)) (ha_init a)) = hash_spec alg m.
+Proof.
+  intro H. destruct (get_hasher_cases _ _ H) as [[-> ->]|[[-> ->]|[-> ->]]].
+  - change (flat_map be32_bytes (fold_left m_sha1_block (chunks 64 (pad_with be64_bytes m)) sha1_iv) = sha1 m).
+    unfold sha1. rewrite sha1_iv_eq. rewrite (fold_left_ext m_sha1_block sha1_block _ sha1_block_eq). reflexivity.
+  - change (flat_map le32_bytes (fold_left m_md5_block (chunks 64 (pad_with le64_bytes m)) md5_iv) = md5 m).
+    unfold md5. rewrite md5_iv_eq. rewrite (fold_left_ext m_md5_block md5_block _ md5_block_eq). reflexivity.
+  - change (flat_map be32_bytes (fold_left m_sha256_block (chunks 64 (pad_with be64_bytes m)) sha256_iv) = sha256 m).
+    unfold sha256. rewrite sha256_iv_eq. rewrite (fold_left_ext m_sha256_block sha256_block _ sha256_block_eq). reflexivity.
+Qed.
+
+(* string entry point, without the (unneeded) byte-range hypothesis *)
+Lemma string_std alg a m :
+  get_hasher alg = Some a -> 8 * N.of_nat (length m) < 2 ^ 64 -> getStringHash a m = hash_spec alg m.
+Proof.
+  intros H Hsz. rewrite getStringHash_spec by (try exact Hsz; exact (get_hasher_wf _ _ H)).
+  apply fold_std, H.
+Qed.
+
+Lemma C07_string_digest_is_standard_proof : forall alg a m,
+  get_hasher alg = Some a -> bytesb m = true ->
+  8 * N.of_nat (length m) < 2 ^ 64 ->
+  getStringHash a m = hash_spec alg m.
+Proof. intros alg a m H _ Hsz. apply string_std; assumption. Qed.
+
+Example C07_string_nonvacuous :
+  get_hasher 2 = Some alg_sha256 /\ bytesb [97; 98; 99] = true /\
+  8 * N.of_nat (length [97; 98; 99]) < 2 ^ 64.
+Proof. repeat split. Qed.
+
+Lemma C07_hasher_domain_proof : forall alg, get_hasher alg = None <-> 2 < alg.
+Proof.
+  intro alg. destruct alg as [|[p|[p|p|]|]]; cbn [get_hasher]; split; intro H;
+    try reflexivity; try discriminate H; try lia.
+Qed.
+
+(* ------------------------------------------------------------------------------------ *)
+(** * 6. filebuffer64 hands out the stream in order; getFileHash = getStringHash          *)
+(* ------------------------------------------------------------------------------------ *)
+
+(* the part of the stream that has not been handed out yet *)
+Definition unread (b : fbuf) : list N := skipn (64 * fb_now b) (fb_b b) ++ fb_rest b.
+
+Record fb_inv (hbuf : nat) (b : fbuf) : Prop := {
+  inv_extra : fb_extra b = None;
+  inv_total : fb_total b = (length (fb_b b) / 64)%nat;
+  inv_tail : fb_tail b = (length (fb_b b) mod 64)%nat;
+  inv_now : (fb_now b <= fb_total b)%nat;
+  inv_len : (length (fb_b b) <= 64 * hbuf)%nat;
+  inv_rest : (length (fb_b b) < 64 * hbuf)%nat -> fb_rest b = [] }.
+
+Lemma fb_fill_inv hbuf rest : fb_inv hbuf (fb_fill hbuf None rest).
+Proof.
+  unfold fb_fill. cbv zeta.
+  constructor; cbn [fb_extra fb_total fb_tail fb_now fb_b fb_rest]; try reflexivity.
+  - lia.
+  - rewrite firstn_length. lia.
+  - rewrite firstn_length. intro H. apply skipn_all2. lia.
+Qed.
+
+Lemma fb_fill_unread hbuf rest : unread (fb_fill hbuf None rest) = rest.
+Proof.
+  unfold unread, fb_fill. cbv zeta. cbn [fb_now fb_b fb_rest].
+  rewrite Nat.mul_0_r. cbn [skipn]. apply firstn_skipn.
+Qed.
+
+(* read_buffer64 after the refill test *)
+Definition read_core (b : fbuf) : list N * fbuf :=
+  let load_size := if (fb_total b <=? fb_now b)%nat then fb_tail b else 64%nat in
+  let tail' := if (fb_now b =? fb_total b)%nat then 0%nat else fb_tail b in
+  (firstn load_size (skipn (64 * fb_now b) (fb_b b)),
+   {| fb_extra := None; fb_b := fb_b b; fb_total := fb_total b; fb_now := S (fb_now b);
+      fb_tail := tail'; fb_rest := fb_rest b |}).
+
+Definition refill (hbuf : nat) (b : fbuf) : fbuf :=
+  if (fb_now b =? hbuf)%nat then fb_fill hbuf None (fb_rest b) else b.
+
+Lemma fb_read_core hbuf b : fb_extra b = None -> fb_read hbuf b = read_core (refill hbuf b).
+Proof. intro H. unfold fb_read. rewrite H. reflexivity. Qed.
+
+Lemma div64_bounds L : (64 * (L / 64) <= L < 64 * (L / 64) + 64)%nat /\ (L mod 64 = L - 64 * (L / 64))%nat.
+Proof.
+  pose proof (Nat.div_mod L 64 ltac:(discriminate)) as E.
+  pose proof (Nat.mod_upper_bound L 64 ltac:(discriminate)) as U. lia.
+Qed.
+
+Lemma refill_spec hbuf b : (1 <= hbuf)%nat -> fb_inv hbuf b ->
+  fb_inv hbuf (refill hbuf b) /\ unread (refill hbuf b) = unread b /\ (fb_now (refill hbuf b) < hbuf)%nat.
+Proof.
+  intros Hh I. unfold refill.
+  pose proof (div64_bounds (length (fb_b b))) as [D _].
+  pose proof (inv_total _ _ I) as Ht. pose proof (inv_now _ _ I) as Hn. pose proof (inv_len _ _ I) as Hl.
+  destruct (Nat.eqb_spec (fb_now b) hbuf) as [E|E].
+  - split; [apply fb_fill_inv|]. split.
+    + rewrite fb_fill_unread. unfold unread.
+      rewrite skipn_all2 by nia. reflexivity.
+    + unfold fb_fill. cbv zeta. cbn [fb_now]. lia.
+  - split; [exact I|]. split; [reflexivity|]. nia.
+Qed.
+
+Lemma read_core_spec hbuf b : fb_inv hbuf b -> (fb_now b < hbuf)%nat ->
+  (64 <= length (unread b) ->
+     fst (read_core b) = firstn 64 (unread b) /\ fb_inv hbuf (snd (read_core b)) /\
+     unread (snd (read_core b)) = skipn 64 (unread b))%nat /\
+  (length (unread b) < 64 -> fst (read_core b) = unread b)%nat.
+Proof.
+  intros I Hnow.
+  pose proof (div64_bounds (length (fb_b b))) as [D M].
+  pose proof (inv_total _ _ I) as Ht. pose proof (inv_now _ _ I) as Hn. pose proof (inv_len _ _ I) as Hl.
+  pose proof (inv_tail _ _ I) as Hta. pose proof (inv_rest _ _ I) as Hr.
+  unfold read_core. cbv zeta. cbn [fst snd].
+  assert (Hsk : length (skipn (64 * fb_now b) (fb_b b)) = (length (fb_b b) - 64 * fb_now b)%nat)
+    by apply skipn_length.
+  destruct (Nat.leb_spec (fb_total b) (fb_now b)) as [Hle|Hlt].
+  - (* all full blocks consumed, the buffer was short: end of stream *)
+    assert (En : fb_now b = fb_total b) by lia.
+    assert (Hrest : fb_rest b = []) by (apply Hr; nia).
+    assert (Hu : unread b = skipn (64 * fb_now b) (fb_b b))
+      by (unfold unread; rewrite Hrest; apply app_nil_r).
+    split.
+    + intro H. rewrite Hu, Hsk in H. nia.
+    + intros _. rewrite Hu. apply firstn_all2. rewrite Hsk, Hta, M. nia.
+  - assert (Hge : (64 <= length (skipn (64 * fb_now b) (fb_b b)))%nat) by (rewrite Hsk; nia).
+    split.
+    + intros _. split; [|split].
+      * unfold unread. rewrite firstn_app_ge by exact Hge. reflexivity.
+      * destruct (Nat.eqb_spec (fb_now b) (fb_total b)) as [E|E]; [lia|].
+        constructor; cbn [fb_extra fb_total fb_tail fb_now fb_b fb_rest];
+          [reflexivity|exact Ht|exact Hta|lia|exact Hl|exact Hr].
+      * unfold unread. cbn [fb_now fb_b fb_rest].
+        rewrite skipn_app_ge by exact Hge.
+        replace (64 * S (fb_now b))%nat with (64 + 64 * fb_now b)%nat by lia.
+        rewrite skipn_add. reflexivity.
+    + intro H. unfold unread in H. rewrite app_length in H. lia.
+Qed.
+
+Lemma fb_read_spec hbuf b : (1 <= hbuf)%nat -> fb_inv hbuf b ->
+  (64 <= length (unread b) ->
+     fst (fb_read hbuf b) = firstn 64 (unread b) /\ fb_inv hbuf (snd (fb_read hbuf b)) /\
+     unread (snd (fb_read hbuf b)) = skipn 64 (unread b))%nat /\
+  (length (unread b) < 64 -> fst (fb_read hbuf b) = unread b)%nat.
+Proof.
+  intros Hh I. rewrite fb_read_core by (apply (inv_extra _ _ I)).
+  destruct (refill_spec hbuf b Hh I) as (I1 & U1 & N1).
+  rewrite <- U1. apply (read_core_spec hbuf); assumption.
+Qed.
+
+(* getFileHash's loop is getStringHash's loop over the unread stream *)
+Lemma file_loop_spec hbuf a : (1 <= hbuf)%nat -> forall fuel st b,
+  fb_inv hbuf b -> (length (unread b) / 64 < fuel)%nat ->
+  file_loop hbuf a fuel st b = Some (string_loop a fuel st (unread b)).
+Proof.
+  intro Hh. induction fuel as [|f IH]; intros st b I Hfuel; [lia|].
+  cbn [file_loop string_loop].
+  destruct (fb_read_spec hbuf b Hh I) as [Hfull Hshort].
+  destruct (fb_read hbuf b) as [blk b']. cbn [fst snd] in *.
+  destruct (Nat.leb_spec 64 (length (unread b))) as [Hge|Hlt].
+  - destruct (Hfull Hge) as (Eb & I' & U').
+    assert (Hl : length blk = 64%nat) by (rewrite Eb; apply firstn_length_le; exact Hge).
+    rewrite Hl. cbn [Nat.eqb]. change (64 =? 64)%nat with true. cbv iota.
+    rewrite IH by (try exact I'; rewrite U', skipn_length;
+                   pose proof (div64_bounds (length (unread b))); 
+                   pose proof (div64_bounds (length (unread b) - 64)); nia).
+    rewrite U', Eb. reflexivity.
+  - rewrite (Hshort Hlt). destruct (Nat.eqb_spec (length (unread b)) 64) as [E|E]; [lia|reflexivity].
+Qed.
+
+Lemma fb_read_extra hbuf e m : fb_read hbuf (fb_fill hbuf (Some e) m) = (e, fb_fill hbuf None m).
+Proof. reflexivity. Qed.
+
+Definition pre_bytes (pre : option (list N)) : list N := match pre with None => [] | Some p => p end.
+
+Lemma getFileHash_string hbuf a pre m :
+  (1 <= hbuf)%nat -> match pre with None => True | Some p => length p = 64%nat end ->
+  getFileHash hbuf a pre m =
+  Some (ha_out a (hs_h (string_loop a (length m / 64 + 3) (reset a) (pre_bytes pre ++ m)))).
+Proof.
+  intros Hh Hp. unfold getFileHash, fb_new.
+  destruct pre as [p|]; cbn [option_map pre_bytes].
+  - replace (length m / 64 + 3)%nat with (S (length m / 64 + 2)) by lia.
+    cbn [file_loop string_loop]. rewrite fb_read_extra.
+    rewrite (firstn_all2 p) by lia. rewrite Hp. change (64 =? 64)%nat with true. cbv iota.
+    rewrite file_loop_spec by (try apply fb_fill_inv; try exact Hh; rewrite fb_fill_unread; lia).
+    rewrite fb_fill_unread. cbn [option_map].
+    rewrite app_length, Hp.
+    destruct (Nat.leb_spec 64 (64 + length m)) as [_|H]; [|lia].
+    rewrite firstn_app_exact, skipn_app_exact by exact Hp. reflexivity.
+  - rewrite file_loop_spec by (try apply fb_fill_inv; try exact Hh; rewrite fb_fill_unread; lia).
+    rewrite fb_fill_unread. reflexivity.
+Qed.
+
+Lemma file_std hbuf alg a pre m :
+  (1 <= hbuf)%nat -> get_hasher alg = Some a ->
+  match pre with None => True | Some p => length p = 64%nat end ->
+  8 * N.of_nat (64 + length m) < 2 ^ 64 ->
+  getFileHash hbuf a pre m = Some (hash_spec alg (pre_bytes pre ++ m)).
+Proof.
+  intros Hh H Hp Hsz. rewrite getFileHash_string by assumption. f_equal.
+  rewrite <- (fold_std alg a _ H). f_equal.
+  rewrite pad_with_spec_tail.
+  assert (Hl : (length (pre_bytes pre ++ m) <= 64 + length m)%nat).
+  { rewrite app_length. destruct pre as [p|]; cbn [pre_bytes length]; lia. }
+  apply (string_loop_spec a (get_hasher_wf _ _ H) _ (reset a) _ 0%nat);
+    [|reflexivity|reflexivity|cbn [Nat.add]; rewrite pow64 in *; lia].
+  pose proof (div64_bounds (length (pre_bytes pre ++ m))).
+  pose proof (div64_bounds (length m)). nia.
+Qed.
+
+Lemma C07_file_digest_is_standard_proof : forall hbuf alg a pre m,
+  (1 <= hbuf)%nat -> get_hasher alg = Some a -> bytesb m = true ->
+  match pre with None => True | Some p => length p = 64%nat /\ bytesb p = true end ->
+  8 * N.of_nat (64 + length m) < 2 ^ 64 ->
+  getFileHash hbuf a pre m = Some (hash_spec alg (match pre with None => [] | Some p => p end ++ m)).
+Proof.
+  intros hbuf alg a pre m Hh H _ Hp Hsz.
+  apply (file_std hbuf alg a pre m); try assumption.
+  destruct pre as [p|]; [apply Hp|exact I].
+Qed.
+
+Example C07_file_nonvacuous :
+  (1 <= 2)%nat /\ get_hasher 0 = Some alg_sha1 /\ bytesb (zeros 200) = true /\
+  (length (zeros 64) = 64%nat /\ bytesb (zeros 64) = true) /\
+  8 * N.of_nat (64 + length (zeros 200)) < 2 ^ 64.
+Proof. repeat split. auto. Qed.
+
+(* ------------------------------------------------------------------------------------ *)
+(** * 7. Digest lengths (used by the HMAC proofs)                                         *)
+(* ------------------------------------------------------------------------------------ *)
+
+Lemma map2_length {A B C} (f : A -> B -> C) : forall a b,
+  length a = length b -> length (map2 f a b) = length a.
+Proof.
+  induction a as [|x a IH]; intros [|y b] H; cbn [map2 length] in *; try reflexivity; try discriminate H.
+  f_equal. apply IH. injection H as H. exact H.
+Qed.
+
+Lemma set_nth_length n x : forall l, length (set_nth n x l) = length l.
+Proof.
+  induction n as [|n IH]; intros [|y l]; cbn [set_nth length]; try reflexivity.
+  f_equal. apply IH.
+Qed.
+
+Lemma m_sha1_round_length W v i : length v = 5%nat -> length (m_sha1_round W v i) = 5%nat.
+Proof.
+  intro H. destruct v as [|a [|b [|c [|d [|e [|x v]]]]]]; try discriminate H. reflexivity.
+Qed.
+
+Lemma m_sha256_round_length W v i : length v = 8%nat -> length (m_sha256_round W v i) = 8%nat.
+Proof.
+  intro H. destruct v as [|a [|b [|c [|d [|e [|f [|g [|h [|x v]]]]]]]]]; try discriminate H. reflexivity.
+Qed.
+
+Lemma md5_step_length X v st : length (md5_step X v st) = length v.
+Proof. destruct st as [[[[f regs] k] s] ac]. unfold md5_step. apply set_nth_length. Qed.
+
+(* each compression function keeps the number of state words *)
+Definition len_ok (a : halg) : Prop :=
+  forall H blk, length H = length (ha_init a) -> length (ha_compress a H blk) = length (ha_init a).
+
+Lemma len_ok_sha1 : len_ok alg_sha1.
+Proof.
+  intros H blk HH. change (length (ha_init alg_sha1)) with 5%nat in *.
+  change (ha_compress alg_sha1 H blk) with (m_sha1_block H blk). unfold m_sha1_block. cbv zeta.
+  rewrite map2_length; [exact HH|]. rewrite HH. symmetry.
+  apply (fold_left_inv (fun v => length v = 5%nat)); [|exact HH].
+  intros v i Hv. apply m_sha1_round_length, Hv.
+Qed.
+
+Lemma len_ok_sha256 : len_ok alg_sha256.
+Proof.
+  intros H blk HH. change (length (ha_init alg_sha256)) with 8%nat in *.
+  change (ha_compress alg_sha256 H blk) with (m_sha256_block H blk). unfold m_sha256_block. cbv zeta.
+  rewrite map2_length; [exact HH|]. rewrite HH. symmetry.
+  apply (fold_left_inv (fun v => length v = 8%nat)); [|exact HH].
+  intros v i Hv. apply m_sha256_round_length, Hv.
+Qed.
+
+Lemma len_ok_md5 : len_ok alg_md5.
+Proof.
+  intros H blk HH. change (length (ha_init alg_md5)) with 4%nat in *.
+  change (ha_compress alg_md5 H blk) with (md5_block_with md5_steps H blk). unfold md5_block_with.
+  rewrite map2_length; [exact HH|]. rewrite HH. symmetry.
+  apply (fold_left_inv (fun v => length v = 4%nat)); [|exact HH].
+  intros v i Hv. rewrite md5_step_length. exact Hv.
+Qed.
+
+Lemma getHash_final_length a st s : len_ok a ->
+  length (hs_h st) = length (ha_init a) -> length (hs_h (getHash_final a st s)) = length (ha_init a).
+Proof.
+  intros Hok Hst. unfold getHash_final. cbv zeta.
+  destruct (_ <=? _)%nat; rewrite !getHash_block_h; repeat apply Hok; exact Hst.
+Qed.
+
+Lemma string_loop_length a : len_ok a -> forall fuel st s,
+  length (hs_h st) = length (ha_init a) -> length (hs_h (string_loop a fuel st s)) = length (ha_init a).
+Proof.
+  intro Hok. induction fuel as [|f IH]; intros st s Hst; cbn [string_loop]; [exact Hst|].
+  destruct (_ <=? _)%nat.
+  - apply IH. rewrite getHash_block_h. apply Hok, Hst.
+  - apply getHash_final_length; assumption.
+Qed.
+
+Lemma flat_map_length4 (f : N -> list N) : (forall w, length (f w) = 4%nat) ->
+  forall l, length (flat_map f l) = (4 * length l)%nat.
+Proof.
+  intro Hf. induction l as [|x l IH]; [reflexivity|].
+  cbn [flat_map]. rewrite app_length, Hf, IH. cbn [length]. lia.
+Qed.
+
+(* every result of getStringHash has the algorithm's digest length, for every input *)
+Lemma getStringHash_length alg a s : get_hasher alg = Some a ->
+  length (getStringHash a s) = ha_hlen a /\
+  ha_hlen a = match alg with 0 => 20%nat | 1 => 16%nat | _ => 32%nat end.
+Proof.
+  intro H. unfold getStringHash.
+  destruct (get_hasher_cases _ _ H) as [[-> ->]|[[-> ->]|[-> ->]]]; (split; [|reflexivity]).
+  - change (ha_out alg_sha1) with (flat_map be32_bytes).
+    rewrite flat_map_length4 by reflexivity.
+    rewrite (string_loop_length alg_sha1 len_ok_sha1) by reflexivity. reflexivity.
+  - change (ha_out alg_md5) with (flat_map le32_bytes).
+    rewrite flat_map_length4 by reflexivity.
+    rewrite (string_loop_length alg_md5 len_ok_md5) by reflexivity. reflexivity.
+  - change (ha_out alg_sha256) with (flat_map be32_bytes).
+    rewrite flat_map_length4 by reflexivity.
+    rewrite (string_loop_length alg_sha256 len_ok_sha256) by reflexivity. reflexivity.
+Qed.
+
+(* ------------------------------------------------------------------------------------ *)
+(** * 8. Standard test vectors through the model and the specification (sanity)           *)
+(* ------------------------------------------------------------------------------------ *)
+
+(* "abc": FIPS 180-4 examples, RFC 1321 A.5 *)
+Example sha1_abc :
+  getStringHash alg_sha1 [97; 98; 99] =
+    [0xa9;0x99;0x3e;0x36;0x47;0x06;0x81;0x6a;0xba;0x3e;0x25;0x71;0x78;0x50;0xc2;0x6c;0x9c;0xd0;0xd8;0x9d]
+  /\ sha1 [97; 98; 99] = getStringHash alg_sha1 [97; 98; 99].
+Proof. vm_compute. split; reflexivity. Qed.
+Example md5_abc :
+  getStringHash alg_md5 [97; 98; 99] =
+    [0x90;0x01;0x50;0x98;0x3c;0xd2;0x4f;0xb0;0xd6;0x96;0x3f;0x7d;0x28;0xe1;0x7f;0x72]
+  /\ md5 [97; 98; 99] = getStringHash alg_md5 [97; 98; 99].
+Proof. vm_compute. split; reflexivity. Qed.
+Example sha256_abc :
+  getStringHash alg_sha256 [97; 98; 99] =
+    [0xba;0x78;0x16;0xbf;0x8f;0x01;0xcf;0xea;0x41;0x41;0x40;0xde;0x5d;0xae;0x22;0x23;
+     0xb0;0x03;0x61;0xa3;0x96;0x17;0x7a;0x9c;0xb4;0x10;0xff;0x61;0xf2;0x00;0x15;0xad]
+  /\ sha256 [97; 98; 99] = getStringHash alg_sha256 [97; 98; 99].
+Proof. vm_compute. split; reflexivity. Qed.
+
+(* the file path with a prefix block, a one-block buffer (three refills) and a 57..63-byte tail
+   (two final blocks), against the specification *)
+Example file_refill_vector :
+  let m := map N.of_nat (seq 0 190) in
+  getFileHash 1 alg_sha256 (Some (zeros 64)) m = Some (sha256 (zeros 64 ++ m)) /\
+  getFileHash 2 alg_md5 None m = Some (md5 m) /\
+  getFileHash 3 alg_sha1 None (firstn 128 m) = Some (sha1 (firstn 128 m)).
+Proof. vm_compute. repeat split. Qed.
